@@ -1,6 +1,7 @@
 package rules
 
 import (
+	"go/types"
 	"fmt"
 	"go/constant"
 	"go/token"
@@ -131,7 +132,7 @@ func checkC09(c *Ctx) {
 			switch {
 			case a.Fn == handler || a.Fn == marker:
 				role = "note handler (decided above)"
-			case core.IsFieldLoad(lastID)(st.Val):
+			case core.IsFieldLoad(lastID)(st.Val) || storedIntoField(a.Fn, lastID, st.Val):
 				role = "publisher's own marks = Topic.lastID"
 			case core.IsConstInt(0)(st.Val):
 				role = "reset to 0"
@@ -364,4 +365,15 @@ func firstPassEdges(fn *ssa.Function, g core.Guard) (map[core.Edge]bool, []int) 
 		}
 	}
 	return out, cnt
+}
+
+// storedIntoField: the same SSA value is stored into field f somewhere in fn (`seq := lastID+1;
+// ...; lastID = seq; readID = seq`).
+func storedIntoField(fn *ssa.Function, f *types.Var, v ssa.Value) bool {
+	for _, st := range core.StoresToField(fn, f) {
+		if core.Strip(st.Val) == core.Strip(v) {
+			return true
+		}
+	}
+	return false
 }
